@@ -318,3 +318,35 @@ Example ex_refusal_clean :
   fst (run ex_cfg_refuse srv_init [EioConnect ex_e1 PNone; EioMessage ex_e1 (PStr (s2l "0")) []]) =
   mkSrv mgr_init [(ex_e1, PNone)] [] [] [ex_e1] 1.
 Proof. vm_compute. reflexivity. Qed.
+
+(* ---- quiescent points of runs with overlapping handler tasks (Check/C11Check.v, qcase) ----
+   Such runs (async_handlers=True) are not operations of the sequential model; the implementation's dumps at
+   quiescent points are judged by c11q_eval.  What is proved: the checker asks of a quiescent dump nothing that
+   the model does not guarantee at EVERY operation boundary of EVERY history (any choice ks of boundaries). *)
+Lemma Forall_firstn_ok {A} (P : A -> Prop) k (l : list A) : Forall P l -> Forall P (firstn k l).
+Proof.
+  intros H. revert k. induction H as [|x l Hx Hl IH]; intros [|k]; cbn [firstn]; constructor; auto.
+Qed.
+
+Theorem C11_quiescent_lemma c ops ks :
+  cfg_ok c -> Forall op_ok ops ->
+  c11q_eval (mkQ (map (fun k => dump_of (fst (run c srv_init (firstn k ops)))) ks)) = 0%nat.
+Proof.
+  intros Hc Ho. unfold c11q_eval.
+  assert (H : c11q_ok (mkQ (map (fun k => dump_of (fst (run c srv_init (firstn k ops)))) ks)) = true).
+  { unfold c11q_ok. cbn [q_dumps]. apply forallb_forall. intros d Hd. apply in_map_iff in Hd.
+    destruct Hd as [k [<- _]]. apply C11_final_lemma; auto. apply Forall_firstn_ok; exact Ho. }
+  rewrite H. reflexivity.
+Qed.
+
+(* non-vacuity: the example history passes at every boundary; a callback slot, or a pending entry, kept for a
+   client that is gone is rejected, with the kind of residue in the code (2 + 2 * sum 2^kind) *)
+Example ex_quiescent_ok :
+  c11q_eval (mkQ (map (fun k => dump_of (fst (run ex_cfg srv_init (firstn k ex_ops)))) (seq 0 (S (List.length ex_ops))))) = 0%nat.
+Proof. vm_compute. reflexivity. Qed.
+Example ex_quiescent_rejects_callback :
+  c11q_eval (mkQ [dump_of srv_init; mkDump [] [] [(sid_name 0, Some 2, [1])] [] [] [] []]) = (2 + 2 * (8 + 128))%nat.
+Proof. vm_compute. reflexivity. Qed.
+Example ex_quiescent_rejects_pending :
+  c11q_eval (mkQ [mkDump [] [(ex_ns, [sid_name 0])] [] [] [] [] []]) = (2 + 2 * (4 + 128))%nat.
+Proof. vm_compute. reflexivity. Qed.
